@@ -172,7 +172,7 @@ def run_check(prop: str, tier: str, seed: int, jobs: int | None = None) -> int:
     tmp = tempfile.mkdtemp(prefix=f"verif_{prop}_")
     env = dict(os.environ)
     env["PYTHONHASHSEED"] = "0"
-    env["PYTHONPATH"] = os.pathsep.join([os.path.join(REPO, "src"), ROOT])
+    env["PYTHONPATH"] = os.pathsep.join([os.path.join(REPO, "src"), ROOT, os.path.join(ROOT, "fixtures")])
     env["PYTHONDONTWRITEBYTECODE"] = "1"
     env.setdefault("VERIF_REPO", REPO)
     procs = []
